@@ -14,6 +14,7 @@ type sessO struct {
 	explicit bool // inside BEGIN (autocommit ignored)
 	inTx     bool
 	snap     Table // committed working root when the transaction began (observer's view)
+	snapO    Table // the same for otherdb.t
 	own      []Op  // own successful writes since then
 }
 
@@ -81,6 +82,7 @@ func goMerge(E, W, S Table) (Table, bool) {
 
 type txnObs struct {
 	W, S, Hd Table
+	O        Table // otherdb.t (second database of the provider)
 }
 
 func (h *H) observe(obs *sqleng.Session, tbl string) (txnObs, error) {
@@ -93,6 +95,9 @@ func (h *H) observe(obs *sqleng.Session, tbl string) (txnObs, error) {
 		return o, err
 	}
 	if o.Hd, err = tableOf(obs.Exec("SELECT * FROM "+tbl+" AS OF 'HEAD' ORDER BY pk"), colIsStr); err != nil {
+		return o, err
+	}
+	if o.O, err = tableOf(obs.Exec("SELECT * FROM otherdb.t ORDER BY pk"), colIsStr); err != nil {
 		return o, err
 	}
 	return o, nil
@@ -114,9 +119,17 @@ func (h *H) runTxn(p *Program) {
 	}
 	setup.MustExec("CREATE TABLE t (pk int primary key, c0 int, c1 varchar(8), c2 int)")
 	setup.MustExec("CALL dolt_commit('-Am','create')")
+	// second database: created once per engine, emptied per program.  The program's sessions are new
+	// connections that have never referenced it.
+	if r := setup.Exec("CREATE DATABASE IF NOT EXISTS otherdb"); r.Err != nil {
+		panic(r.Err)
+	}
+	setup.MustExec("CREATE TABLE IF NOT EXISTS otherdb.t (pk int primary key, c0 int, c1 varchar(8), c2 int)")
+	setup.MustExec("DELETE FROM otherdb.t")
 	obs, _ := h.eng.NewSession()
-	sess := make([]*sqleng.Session, p.NSess)
-	so := make([]*sessO, p.NSess)
+	nS := p.NSess + 1 // the extra session only ever runs autocommit statements on otherdb.t
+	sess := make([]*sqleng.Session, nS)
+	so := make([]*sessO, nS)
 	for i := range sess {
 		sess[i], _ = h.eng.NewSession()
 		so[i] = &sessO{auto: true}
@@ -140,7 +153,7 @@ func (h *H) runTxn(p *Program) {
 		before := cur
 		// --- oracle: does this statement start a transaction?  (BEGIN handled after its implicit commit)
 		if o.Kind != "begin" && o.Kind != "commit" && o.Kind != "rollback" && !s.inTx {
-			s.inTx, s.snap, s.own = true, before.W.Clone(), nil
+			s.inTx, s.snap, s.snapO, s.own = true, before.W.Clone(), before.O.Clone(), nil
 		}
 		res := sess[o.S].Exec(stmt)
 		class := implClass(res)
@@ -169,7 +182,25 @@ func (h *H) runTxn(p *Program) {
 				}
 			}
 		}
-		implLine := fmt.Sprintf("%s %s W=%s S=%s H=%s", class, rowsWire, cur.W.Dump(), cur.S.Dump(), cur.Hd.Dump())
+		if o.Kind == "reado" && res.Err == nil {
+			tv, err := tableOf(res, colIsStr)
+			if err != nil {
+				panic(err)
+			}
+			rowsWire = tv.Dump()
+			// --- C22 oracle, other database: also a database the session references for the first time in the
+			// middle of a transaction is read as of the transaction's start
+			if prop == "C22" {
+				if !tv.Eq(s.snapO) {
+					violate("other-database-read-not-at-transaction-start", fmt.Sprintf("stmt %d: session %d read otherdb.t = %s inside a transaction that began when otherdb.t was %s (now committed: %s)", idx, o.S, tv.Dump(), s.snapO.Dump(), before.O.Dump()))
+				}
+				rep.Hit("c22:other-db-reads-checked")
+				if !s.snapO.Eq(before.O) {
+					rep.Hit("c22:other-db-read-while-committed-state-differs-from-snapshot")
+				}
+			}
+		}
+		implLine := fmt.Sprintf("%s %s W=%s S=%s H=%s O=%s", class, rowsWire, cur.W.Dump(), cur.S.Dump(), cur.Hd.Dump(), cur.O.Dump())
 		if h.m != nil && !modelOff {
 			ml := h.ask(o.Wire())
 			if ml != implLine {
@@ -185,6 +216,12 @@ func (h *H) runTxn(p *Program) {
 			commitPoint = s.inTx
 		case "dcommit":
 			commitPoint = true // also "nothing to commit" finalizes (commits) the SQL transaction first
+		case "reado", "inso", "updo", "delo":
+			commitPoint = s.auto && !s.explicit
+			if o.Kind != "reado" && class != "ok" && class != "dup-key" {
+				rep.Disagree(p, implLine, "", fmt.Sprintf("stmt %d: unexpected error class %s: %v", idx, class, res.Err))
+				return
+			}
 		case "read", "auto0":
 			commitPoint = s.auto && !s.explicit && o.Kind != "auto0"
 		default:
@@ -259,7 +296,7 @@ func (h *H) runTxn(p *Program) {
 		switch o.Kind {
 		case "begin":
 			if class == "ok" {
-				s.inTx, s.explicit, s.snap, s.own = true, true, cur.W.Clone(), nil
+				s.inTx, s.explicit, s.snap, s.snapO, s.own = true, true, cur.W.Clone(), cur.O.Clone(), nil
 			} else {
 				s.inTx, s.explicit = false, false
 			}
